@@ -102,13 +102,19 @@ def run_commitlog(rep, tier, seed, rng, keepdir):
     res = tlc_check('MC_CommitLog.tla', 'MC_CommitLog_occ_thorough.cfg' if thorough else 'MC_CommitLog_occ.cfg',
                          timeout=3000, coverage=thorough)
     rep.add_design('MC_CommitLog_occ', res)
-    num, depth = (12000, 16) if thorough else (700, 12)
+    core.log('design check MC_CommitLog_occ: %d distinct states, %.0f s' % (res['distinct'], res['wall']))
+    # the OCC-focused configs switch the reader actions off (UseReaders = FALSE; readers are C01/C03's business)
+    rep.cov['coverage_zero_actions'] = [z for z in rep.cov['coverage_zero_actions']
+                                        if z.split(':')[1] not in ('MCNewReader', 'MCDrain')]
+    num, depth = (5000, 16) if thorough else (700, 12)
     sims = core.tlc_simulate('MC_CommitLog.tla', 'Sim_CommitLog_occ_thorough.cfg' if thorough else 'Sim_CommitLog_occ.cfg',
                              num, depth, seed, timeout=1500)
     behaviours = [c01.decorate(b, rng, i + 1) for i, b in enumerate(sims) if len(b) > 1]
     with core.scratch('c16cl') as d:
         trace = c01.execute(behaviours, d, timeout=1500)
         tr = cl_judge(rep, behaviours, trace)
+        core.log('commit log: %d behaviours executed and judged (%d lines, TLC %.0f s)' % (
+            len(behaviours), tr['validated'], tr['wall']))
         ref, acc = cl_stats(trace)
         keep = os.path.join(keepdir, 'cl-trace.ndjson')
         with open(keep, 'w') as fh:      # a prefix is enough for the corrupted-trace self-test
@@ -230,8 +236,13 @@ def sv_execute(rounds, d, timeout=1200):
             open_round = e['t']
         elif e['a'] in ('Round', 'Unreadable'):
             open_round = None
-    in_publish_path = any(k in (out or '') for k in ('messageProcessingLoop', 'commitlog.(*commitLog).Append',
-                                                     'newMessageSetFromProto'))
+    # only the stack of the panicking goroutine counts (a test time-out dumps every goroutine)
+    in_publish_path = False
+    if m and not m.group(1).startswith('test timed out'):
+        g = re.search(r'^goroutine \d+ \[running\]:\n(.*?)(?:\n\n|\Z)', (out or '')[m.end():], re.S | re.M)
+        stack = g.group(1) if g else ''
+        in_publish_path = any(k in stack for k in ('messageProcessingLoop', 'commitlog.(*commitLog).Append',
+                                                   'newMessageSetFromProto'))
     if rc is not None and m and open_round is not None and in_publish_path:
         with open(trace, 'a') as fh:
             fh.write(json.dumps({'t': open_round, 'a': 'Died', 'note': m.group(1)[:300]}) + '\n')
@@ -270,7 +281,7 @@ def sv_judge(rep, rounds, trace, confirm=True):
 
 def sv_stats(events):
     st = {'rounds': 0, 'msgs': 0, 'ok': 0, 'refused': 0, 'timeouts': 0, 'nontrivial_ids': [], 'exact_refusals': 0,
-          'races_same_exp': 0, 'aborted': 0}
+          'races_same_exp': 0, 'aborted': 0, 'other_answers': 0}
     for e in events:
         if e['a'] == 'Aborted':
             st['aborted'] += 1
@@ -279,6 +290,7 @@ def sv_stats(events):
         st['rounds'] += 1
         st['msgs'] += len(e['msgs'])
         st['timeouts'] += e.get('timeouts', 0)
+        st['other_answers'] += sum(1 for m in e['msgs'] if m['res'] == 'other')
         ok = [m for m in e['msgs'] if m['res'] == 'ok']
         rej = [m for m in e['msgs'] if m['res'] == 'incorrect_offset']
         st['ok'] += len(ok)
@@ -308,10 +320,14 @@ def sv_stats(events):
 def run_server(rep, tier, seed, rng):
     thorough = tier == 'thorough'
     # design check of the publish path
-    for cfgname in (['MC_OccPublish.cfg', 'MC_OccPublish_small.cfg'] +
-                    (['MC_OccPublish_thorough.cfg', 'MC_OccPublish_thorough2.cfg'] if thorough else [])):
+    # (the thorough configurations contain the quick ones)
+    for cfgname in (['MC_OccPublish_thorough.cfg', 'MC_OccPublish_thorough2.cfg'] if thorough
+                    else ['MC_OccPublish.cfg', 'MC_OccPublish_small.cfg']):
         res = tlc_check('MC_OccPublish.tla', cfgname, timeout=3000, coverage=thorough)
         rep.add_design(cfgname[:-4], res)
+        core.log('design check %s: %d distinct states, %.0f s' % (cfgname, res['distinct'], res['wall']))
+        if res.get('zero_cov'):
+            raise core.Inconclusive('actions never taken in the design check %s: %s' % (cfgname, res['zero_cov']))
     # design-level self-test: the broken loops must violate the C16 predicates in the model
     if thorough:
         killed = []
@@ -323,7 +339,7 @@ def run_server(rep, tier, seed, rng):
         if len(killed) != len(MUTS):
             raise core.Inconclusive('design-level self-test: broken leader loops not all detected: %s' % killed)
     # rounds: TLC simulation of the publish path + seeded random waves + the ack-policy-NONE cases
-    nsim, nrand = (1200, 1800) if thorough else (120, 200)
+    nsim, nrand = (800, 2200) if thorough else (120, 200)
     sims = core.tlc_simulate('MC_OccPublish.tla', 'Sim_OccPublish.cfg', nsim, 45, seed, timeout=900)
     rounds = []
     for b in sims:
@@ -339,6 +355,7 @@ def run_server(rep, tier, seed, rng):
     with core.scratch('c16sv') as d:
         trace, died = sv_execute(rounds, d)
         tr, events = sv_judge(rep, rounds, trace)
+        core.log('server: %d rounds executed and judged (TLC %.0f s)' % (len(rounds), tr['wall']))
     st = sv_stats(events)
     if died:
         core.log('server process died in round %s: %s' % died)
@@ -462,6 +479,6 @@ def run(rep, tier, seed, replay):
     rep.assumptions += ['one node, replication factor 1; one appender per commit log',
                         'a publisher\'s logical send/answer stamps are taken in one process (sound real-time order)',
                         'TLC 1.8.0 evaluates the TLA+ predicates correctly']
-    if (st['timeouts'] or st['aborted']) and not rep.violations:
-        raise core.Inconclusive('%d publishes got no answer before the deadline%s' % (
-            st['timeouts'], ' (remaining rounds not executed)' if st['aborted'] else ''))
+    if (st['timeouts'] or st['aborted'] or st['other_answers']) and not rep.violations:
+        raise core.Inconclusive('%d publishes got no answer before the deadline, %d a transport-level error%s' % (
+            st['timeouts'], st['other_answers'], ' (remaining rounds not executed)' if st['aborted'] else ''))
